@@ -323,15 +323,37 @@ pub enum BKind {
     SliceS,
     SliceM,
     CloneWorld,
+    /// the same accesses with the component named through `OneOf<C, Nope>`
+    FindBorrowOneOfS,
+    FindBorrowOneOfM,
+    IterBorrowOneOfS,
+    IterBorrowOneOfM,
 }
 
 impl BKind {
-    pub const ALL: [BKind; 9] = [BKind::FindBorrowS, BKind::FindBorrowM, BKind::IterBorrowS, BKind::IterBorrowM, BKind::CompS, BKind::CompM, BKind::SliceS, BKind::SliceM, BKind::CloneWorld];
+    pub const ALL: [BKind; 13] = [
+        BKind::FindBorrowS,
+        BKind::FindBorrowM,
+        BKind::IterBorrowS,
+        BKind::IterBorrowM,
+        BKind::CompS,
+        BKind::CompM,
+        BKind::SliceS,
+        BKind::SliceM,
+        BKind::CloneWorld,
+        BKind::FindBorrowOneOfS,
+        BKind::FindBorrowOneOfM,
+        BKind::IterBorrowOneOfS,
+        BKind::IterBorrowOneOfM,
+    ];
     pub fn mutable(&self) -> bool {
-        matches!(self, BKind::FindBorrowM | BKind::IterBorrowM | BKind::CompM | BKind::SliceM)
+        matches!(self, BKind::FindBorrowM | BKind::IterBorrowM | BKind::CompM | BKind::SliceM | BKind::FindBorrowOneOfM | BKind::IterBorrowOneOfM)
     }
     pub fn needs_entity(&self) -> bool {
-        matches!(self, BKind::FindBorrowS | BKind::FindBorrowM | BKind::CompS | BKind::CompM)
+        matches!(self, BKind::FindBorrowS | BKind::FindBorrowM | BKind::CompS | BKind::CompM | BKind::FindBorrowOneOfS | BKind::FindBorrowOneOfM)
+    }
+    pub fn is_iter(&self) -> bool {
+        matches!(self, BKind::IterBorrowS | BKind::IterBorrowM | BKind::IterBorrowOneOfS | BKind::IterBorrowOneOfM)
     }
     pub fn name(&self) -> &'static str {
         match self {
@@ -344,6 +366,10 @@ impl BKind {
             BKind::SliceS => "borrow_slice",
             BKind::SliceM => "borrow_slice_mut",
             BKind::CloneWorld => "clone",
+            BKind::FindBorrowOneOfS => "find_borrow(&OneOf)",
+            BKind::FindBorrowOneOfM => "find_borrow(&mut OneOf)",
+            BKind::IterBorrowOneOfS => "iter_borrow(&OneOf)",
+            BKind::IterBorrowOneOfM => "iter_borrow(&mut OneOf)",
         }
     }
 }
